@@ -1,4 +1,4 @@
-import ShootVerif.Proofs.Rest
+import ShootVerif.Proofs.RestSend
 import ShootVerif.Proofs.RestParse
 /-!
 C06 — rest: each call sends exactly the request its directive describes.
@@ -66,6 +66,192 @@ theorem C06_headers (hs : List (String × String)) (v : Verb) :
     cases List.find? (fun kv => decide (kv.1 = k)) hs.reverse <;> rfl
   · apply keysOf_setAll_nodup
     cases v <;> decide
+
+/-!
+## The request of one call
+
+Setting of the theorems below: a method `m` as the user meant it (`MethodSpec`), the tables `c`, `d`,
+`subs` the generator cooks for it once its directives are parsed to that meaning (`CookedFor`: the
+code path `cookParsed` = reversMap, handleExpr on every parameter, the `$key`/`$alias` lookups of the
+template), the plan the template sees (`planOf`, for any interface headers `hs`), and argument values
+`args`. `MethodOK m` and `ArgsOK m args` are the clauses of region `WF` (C06_wf_methodOK / C06_wf_argsOK
+derive them from the decidable region predicate the driver prints).
+-/
+
+/-- the whole property for one call: exactly one request, and it is the one the directive describes -/
+theorem C06_request (hs : List (String × String)) (anyCtx : Bool) (m : MethodSpec)
+    (c : Cooked) (d : PathDir) (subs : List PathSub) (args : Args)
+    (ok : MethodOK m) (aok : ArgsOK m args) (h : CookedFor m c d subs) :
+    ∃ r, send (planOf hs anyCtx m.name c d subs) args = .sent r ∧
+      r.verb = m.verb.upper ∧ r.path = specPath m args ∧ r.query.getD [] = specQuery m args ∧
+      r.body = specBody m ∧ (∀ k, getKV r.headers k = specHeader hs m.verb k) ∧ r.ctx = specCtx m args := by
+  obtain ⟨r, h1, h2, h3, h4, h5, h6, h7⟩ := send_eq_spec hs anyCtx m c d subs args ok aok h
+  exact ⟨r, h1, h2, h3, h4, h5, fun k => by rw [h6]; exact (C06_headers hs m.verb).1 k, h7⟩
+
+/-- headline: GET/DELETE — the query handed to `Encode` holds exactly the non-path scalar arguments,
+    the struct fields and the map entries, under alias-or-name, nil pointers omitted, a key set twice
+    keeping the later value; for every parameter list and every argument vector of region WF -/
+theorem C06_query (hs : List (String × String)) (anyCtx : Bool) (m : MethodSpec)
+    (c : Cooked) (d : PathDir) (subs : List PathSub) (args : Args)
+    (ok : MethodOK m) (aok : ArgsOK m args) (h : CookedFor m c d subs) (hv : m.verb.hasBody = false) :
+    ∃ r, send (planOf hs anyCtx m.name c d subs) args = .sent r ∧
+      r.query.getD [] = setAll [] (plainBindings m args m.params ++ dictBindings args m.params) ∧
+      r.body = none := by
+  obtain ⟨r, h1, _, _, h4, h5, _, _⟩ := send_eq_spec hs anyCtx m c d subs args ok aok h
+  refine ⟨r, h1, ?_, ?_⟩
+  · rw [h4]; simp [specQuery, hv]
+  · rw [h5]; simp [specBody, hv]
+
+/-- every `{name}` of the path is replaced by the text of the argument it stands for (through the
+    alias directive), all other characters of the path are kept -/
+theorem C06_placeholders (hs : List (String × String)) (anyCtx : Bool) (m : MethodSpec)
+    (c : Cooked) (d : PathDir) (subs : List PathSub) (args : Args)
+    (ok : MethodOK m) (aok : ArgsOK m args) (h : CookedFor m c d subs) :
+    ∃ r, send (planOf hs anyCtx m.name c d subs) args = .sent r ∧
+      r.path = fill (fun n => argText args (resolve m (String.ofList n))) (tokenize m.path) := by
+  obtain ⟨r, h1, _, h3, _⟩ := send_eq_spec hs anyCtx m c d subs args ok aok h
+  exact ⟨r, h1, by rw [h3]; rfl⟩
+
+/-- POST/PUT/PATCH: the body is `json.Marshal` of the struct argument and no query is written -/
+theorem C06_body (hs : List (String × String)) (anyCtx : Bool) (m : MethodSpec)
+    (c : Cooked) (d : PathDir) (subs : List PathSub) (args : Args)
+    (ok : MethodOK m) (aok : ArgsOK m args) (h : CookedFor m c d subs) (hv : m.verb.hasBody = true) :
+    ∃ r, send (planOf hs anyCtx m.name c d subs) args = .sent r ∧
+      r.body = (m.params.find? isStructParam).map (·.name) ∧ r.query.getD [] = [] := by
+  obtain ⟨r, h1, _, _, h4, h5, _, _⟩ := send_eq_spec hs anyCtx m c d subs args ok aok h
+  refine ⟨r, h1, ?_, ?_⟩
+  · rw [h5]; simp [specBody, hv]
+  · rw [h4]; simp [specQuery, hv]
+
+/-- the context attached to the request is the caller's (the method's context argument), and the
+    background context when the method has no context parameter -/
+theorem C06_ctx (hs : List (String × String)) (anyCtx : Bool) (m : MethodSpec)
+    (c : Cooked) (d : PathDir) (subs : List PathSub) (args : Args)
+    (ok : MethodOK m) (aok : ArgsOK m args) (h : CookedFor m c d subs) :
+    ∃ r, send (planOf hs anyCtx m.name c d subs) args = .sent r ∧ r.ctx = specCtx m args := by
+  obtain ⟨r, h1, _, _, _, _, _, h7⟩ := send_eq_spec hs anyCtx m c d subs args ok aok h
+  exact ⟨r, h1, h7⟩
+
+/-- exactly one request per call — for EVERY plan and EVERY argument vector the emitted method either
+    reaches its single `c.client.Do(req_)` or panics, and it panics only while evaluating a query
+    statement that reads a field through a nil struct pointer -/
+theorem C06_one_request (pl : Plan) (args : Args) :
+    (∃ r, send pl args = .sent r) ∨
+    (send pl args = .panic ∧ pl.verb.hasBody = false ∧ runQueryOps args pl.queryOps = none) := by
+  unfold send
+  simp only
+  by_cases h1 : (pl.verb.hasBody || (pl.queryOps.isEmpty && pl.dict.isNone)) = true
+  · simp only [h1, ↓reduceIte]; exact Or.inl ⟨_, rfl⟩
+  · simp only [h1, Bool.false_eq_true, ↓reduceIte]
+    cases hr : runQueryOps args pl.queryOps with
+    | some sets => exact Or.inl ⟨_, rfl⟩
+    | none =>
+      refine Or.inr ⟨rfl, ?_, rfl⟩
+      cases hb : pl.verb.hasBody with
+      | false => rfl
+      | true => simp [hb] at h1
+
+/-! ## From the decidable region predicate to the hypotheses above -/
+
+theorem noBrace_of_contains (s : List Char) (h : s.contains '{' = false) : noBrace s := by
+  intro c hc e
+  subst e
+  have : s.contains '{' = true := by simpa using hc
+  rw [h] at this; cases this
+
+theorem region_wf (i : IfaceSpec) (calls : List Call) (h : region i calls = "WF") :
+    structOk i = true ∧ F_mixedCtx i = false ∧ F_bodyNoStruct i = false ∧ F_ptrDict i = false ∧
+    F_twoDicts i = false ∧ F_qualScalar i = false ∧ F_nilStructDeref i calls = false ∧
+    F_pathArgBrace i calls = false := by
+  unfold region at h
+  cases h0 : structOk i <;> simp only [h0, Bool.not_false, Bool.not_true, Bool.false_eq_true, ↓reduceIte] at h
+  · exact absurd h (by decide)
+  cases h1 : F_mixedCtx i <;> simp only [h1, Bool.false_eq_true, ↓reduceIte] at h
+  case true => exact absurd h (by decide)
+  cases h2 : F_bodyNoStruct i <;> simp only [h2, Bool.false_eq_true, ↓reduceIte] at h
+  case true => exact absurd h (by decide)
+  cases h3 : F_ptrDict i <;> simp only [h3, Bool.false_eq_true, ↓reduceIte] at h
+  case true => exact absurd h (by decide)
+  cases h4 : F_twoDicts i <;> simp only [h4, Bool.false_eq_true, ↓reduceIte] at h
+  case true => exact absurd h (by decide)
+  cases h5 : F_qualScalar i <;> simp only [h5, Bool.false_eq_true, ↓reduceIte] at h
+  case true => exact absurd h (by decide)
+  cases h6 : F_nilStructDeref i calls <;> simp only [h6, Bool.false_eq_true, ↓reduceIte] at h
+  case true => exact absurd h (by decide)
+  cases h7 : F_pathArgBrace i calls <;> simp only [h7, Bool.false_eq_true, ↓reduceIte] at h
+  case true => exact absurd h (by decide)
+  exact ⟨rfl, rfl, rfl, rfl, rfl, rfl, rfl, rfl⟩
+
+/-- every method of an interface the driver puts in region WF satisfies `MethodOK` -/
+theorem C06_wf_methodOK (i : IfaceSpec) (calls : List Call) (h : region i calls = "WF")
+    (m : MethodSpec) (hm : m ∈ i.methods) : MethodOK m := by
+  obtain ⟨hs, _, _, _, htwo, hqual, _, _⟩ := region_wf i calls h
+  simp only [structOk, Bool.and_eq_true, List.all_eq_true] at hs
+  have hmo := hs.1.1 m hm
+  simp only [methodStructOk, Bool.and_eq_true, distinct, decide_eq_true_eq, List.all_eq_true,
+    Bool.not_eq_true', bne_iff_ne, ne_eq] at hmo
+  obtain ⟨⟨⟨⟨⟨⟨⟨⟨⟨⟨⟨hnames, hctx⟩, _⟩, _⟩, hak⟩, _⟩, _⟩, hav⟩, hclean⟩, hph⟩, hfields⟩, hqb⟩ := hmo
+  refine ⟨hnames, hctx, hak, ?_, ?_, ?_, ?_, ?_, ?_, ?_⟩
+  · intro kv hkv; simpa using hav kv hkv
+  · -- pathClean gives token cleanliness
+    simp only [pathClean, Bool.and_eq_true, List.all_eq_true] at hclean
+    intro t ht
+    have := hclean.2 t ht
+    cases t with
+    | lit c => simpa using this
+    | ph n => trivial
+  · intro n hn
+    have := hph n hn
+    simp only [placeholderOk, Bool.and_eq_true] at this
+    exact this.1
+  · intro p hp; exact (hfields p hp).1
+  · intro p hp f hf; simpa using (hfields p hp).2 f hf
+  · intro p hp hk
+    cases hv : m.verb.hasBody with
+    | true =>
+      have : m.params.any isQualOther = true := by
+        rw [List.any_eq_true]; exact ⟨p, hp, by simp [isQualOther, hk]⟩
+      simp [hv, this] at hqb
+    | false =>
+      have : F_qualScalar i = true := by
+        simp only [F_qualScalar, List.any_eq_true, Bool.and_eq_true, Bool.not_eq_true']
+        exact ⟨m, hm, hv, p, hp, by simp [isQualOther, hk]⟩
+      rw [hqual] at this; cases this
+  · intro hv
+    cases hl : decide ((m.params.filter isDictParam).length ≥ 2) with
+    | false => simp only [decide_eq_false_iff_not] at hl; omega
+    | true =>
+      have : F_twoDicts i = true := by
+        simp only [F_twoDicts, List.any_eq_true, Bool.and_eq_true, Bool.not_eq_true']
+        exact ⟨m, hm, hv, hl⟩
+      rw [htwo] at this; cases this
+
+/-- every call of such an interface satisfies `ArgsOK` -/
+theorem C06_wf_argsOK (i : IfaceSpec) (calls : List Call) (h : region i calls = "WF")
+    (cl : Call) (hc : cl ∈ calls) (m : MethodSpec) (hm : findMethod i cl.method = some m) :
+    ArgsOK m cl.args := by
+  obtain ⟨_, _, _, _, _, _, hnil, hbr⟩ := region_wf i calls h
+  constructor
+  · intro hv p hp hsp hfs v ha
+    have : F_nilStructDeref i calls = true := by
+      simp only [F_nilStructDeref, List.any_eq_true]
+      refine ⟨cl, hc, ?_⟩
+      simp only [hm, hv, Bool.not_false, Bool.true_and, List.any_eq_true, Bool.and_eq_true]
+      refine ⟨p, hp, ⟨hsp, ?_⟩, ?_⟩
+      · cases hf : fieldsOf p with
+        | nil => exact absurd hf hfs
+        | cons a as => rfl
+      · simp [ha]
+    rw [hnil] at this; cases this
+  · intro n hn
+    apply noBrace_of_contains
+    cases hcn : (argText cl.args (resolve m (String.ofList n))).contains '{' with
+    | false => rfl
+    | true =>
+      have : F_pathArgBrace i calls = true := by
+        simp only [F_pathArgBrace, List.any_eq_true]
+        exact ⟨cl, hc, by simp only [hm, List.any_eq_true]; exact ⟨n, hn, hcn⟩⟩
+      rw [hbr] at this; cases this
 
 /-! non-vacuity -/
 example : parsePath ("shoot: Get(\"/users/{id}\")\nshoot: alias={userID:id}\n".toList)
